@@ -212,12 +212,17 @@ def run_history(fam, kind, impl, mode, rng, rec, h):
     desc = dict(family=fam.name, kind=kind, impl=impl, sizes=sizes, mode=mode)
     n = rng.randint(40, 120)
     inject.reset()
+    state = {'ghosted': 0, 'loads0': 0}
 
     def fail(mech, **kw):
         d = dict(desc)
         d.update(kw)
         d['history'] = [brief(x, 100) for x in log[-50:]]
-        if impl == 'py' and mode == 'in-call':
+        if state.get('f22') and mech in (
+                'tree-damaged', 'contents-differ-from-uncached-twin',
+                'contents-raised', 'result-differs-from-uncached-twin'):
+            d['finding'] = 'F22'
+        elif impl == 'py' and mode == 'in-call':
             d['finding'] = 'F16'
         rec.violation(mech, **d)
 
@@ -245,7 +250,6 @@ def run_history(fam, kind, impl, mode, rng, rec, h):
             return False
         return True
 
-    state = {'ghosted': 0, 'loads0': 0}
 
     def in_call_sweep():
         if rng.random() < 0.25:
@@ -354,11 +358,11 @@ def run_history(fam, kind, impl, mode, rng, rec, h):
             if is_tree:
                 wc = walker.walk(c, is_mapping)
                 if wc.inline_nonroot:
-                    # committing this shape stores an F22-damaged database
-                    # (recorded finding, judged by C04/C06); a later reload
-                    # would only re-observe it: cut the history here
-                    rec.ev('history-cut-at-F22-shape')
-                    return
+                    # committing this shape may store an F22-damaged
+                    # database (recorded finding, judged by C04/C06): a
+                    # later reload would re-observe it
+                    rec.ev('f22-shape-committed')
+                    state['f22'] = True
             try:
                 conn.commit()
             except Exception as e:
